@@ -139,7 +139,7 @@ def run_tlc(module, cfg, wd, env_extra=None, workers=1, timeout=900, simulate=No
     import uuid
     meta = os.path.join(wd, "tlc-%s-%s" % (module, uuid.uuid4().hex[:10]))
     os.makedirs(meta, exist_ok=True)
-    jopts = "-Xss1g -Xmx%s" % xmx
+    jopts = "-Xss1g -Xmx%s -Djava.io.tmpdir=%s" % (xmx, meta)
     if deque:
         jopts += " -Dtlc2.tool.queue.IStateQueue=StateDeque"
     env = dict(os.environ, JAVA_TOOL_OPTIONS=jopts)
